@@ -127,6 +127,29 @@ def run(ctx):
                key="R11.11:%s" % A.src(a_[0]),
                what="the checker scans `%s` without a string buffer although the token may be a string, symbol or blob: the scanner stores through the null pointer" % A.src(a_[0]))
     ctx.require(n11 >= 2, "R11.11: calls of the scanner without a string buffer not found in the checker (%d)" % n11)
+    ctx.rule("R11.12", "LOOKBEHIND-KINDS: where the scanner chooses the value a range counts on from, it distinguishes every kind of argument that occupies more than one slot (the kinds next_arg_offset treats specially: arrays and ranges) - for such a kind the slot before the range is not the previous argument")
+    nao = u.function("next_arg_offset")
+    def _type_literals(root):
+        out = set()
+        for y in A.walk(root):
+            if y.get("kind") == "BinaryOperator" and y.get("opcode") in ("==", "!="):
+                l_, r_ = A.kids(y)
+                for a1, a2 in ((l_, r_), (r_, l_)):
+                    m1 = A.strip_casts(a1)
+                    v2 = A.int_literal(a2)
+                    if m1.get("kind") == "MemberExpr" and m1.get("name") == "type" and v2 is not None and 32 < v2 < 127:
+                        out.add(chr(v2))
+        return out
+    kinds = _type_literals(u.body(nao)) - {" "}
+    ctx.require(kinds >= {"a", "-"}, "R11.12: multi-slot kinds of next_arg_offset not recognised (%s)" % sorted(kinds))
+    scn12 = u.function("rtosc_scan_arg_val")
+    ell = [x for x in A.walk(u.body(scn12)) if x.get("kind") == "IfStmt" and any(y.get("kind") == "DeclRefExpr" and (y.get("referencedDecl") or {}).get("name") == "follow_ellipsis" for y in A.walk(A.kids(x)[0]))]
+    ctx.require(len(ell) == 1, "R11.12: the scanner's range block (guarded by follow_ellipsis) was not found (%d)" % len(ell))
+    handled = _type_literals(A.kids(ell[0])[1])
+    missing = sorted(kinds - handled)
+    ctx.ob("R11.12", "left neighbour of a range", not missing, site=A.where(ell[0]), detail={"multi_slot_kinds": sorted(kinds), "distinguished_by_the_scanner": sorted(handled & kinds)},
+           key="R11.12:left neighbour",
+           what="the scanner picks the left neighbour of a range by slot position without telling apart arguments of kind %s, which occupy several slots: the slot before the range is then the last element of that argument (`[1 1] 3 ... 7` reads as 3 5 7)" % missing)
     chk = u.function("rtosc_skip_next_printed_arg")
     scn = u.function("rtosc_scan_arg_val")
     swc, sws = R.top_switch(u, chk), R.top_switch(u, scn)
